@@ -5,3 +5,4 @@ CONSTANTS
   ABug = "none"
 INVARIANT Final
 CHECK_DEADLOCK FALSE
+VIEW TraceView
